@@ -46,7 +46,8 @@ def gen_history(rng: random.Random, n_lo=5, n_hi=14, props=True, fails=True, gc=
             else:
                 op = {"kind": "set_prop", "key": rng.choice([RETENTION, MLOG_MAX]), "value": rng.choice(["x", "0", "-1"])}
         elif r < 0.84 and fails:
-            op = rng.choice([{"kind": "bad_append", "tag": tag}, {"kind": "rollback", "tag": tag, "n": 1}])
+            op = rng.choice([{"kind": "bad_append", "tag": tag}, {"kind": "rollback", "tag": tag, "n": 1},
+                             {"kind": "requeue_fail", "tag": tag, "k": rng.randint(0, 5), "with": rng.random() < 0.5}])
         elif r < 0.90 and gc:
             op = {"kind": "gc", "grace_ms": rng.choice([0, 3600000])}
         elif r < 0.95:
